@@ -1,0 +1,30 @@
+//go:build verif
+
+package leveldb
+
+// Machine-checked contracts for /verif (read as text by the VC generator; no code).
+//
+//@ // bytesPrefixRange: the range starts at prefix followed by start, in storage of its own (the caller's prefix buffer is
+//@ // not written, also not beyond its length); its limit is that of the prefix (util.BytesPrefix, verified from source)
+//@ func bytesPrefixRange
+//@   requires len(prefix) + len(start) <= 4611686018427387904
+//@   ensures  [lower] result != nil && isCat(result.Start, prefix, start)
+//@   ensures  [none] allffU(prefix, len(prefix)) ==> result.Limit == nil
+//@   ensures  [upper] !allffU(prefix, len(prefix)) ==> result.Limit != nil && len(result.Limit) >= 1 && len(result.Limit) <= len(prefix) &&
+//@            result.Limit[len(result.Limit) - 1] == prefix[len(result.Limit) - 1] + 1 &&
+//@            forall(j, 0, len(result.Limit) - 1, result.Limit[j] == prefix[j]) && forall(j, len(result.Limit), len(prefix), prefix[j] == 255)
+//@
+//@ // the replayer forwards every operation to the writer until the first failure, which it keeps
+//@ func (*replayer).Put
+//@   requires r != nil && r.writer != nil
+//@   modifies r.failure, gKeyValueWriterPutN, gKeyValueWriterPutRecv, gKeyValueWriterPutA0, gKeyValueWriterPutA1, gKeyValueWriterPutR0, gWrOpN, gWrOpKind[*], gWrOpRecv[*], gWrOpKey[*], gWrOpVal[*], gWrOpErr[*]
+//@   ensures  [stopped] old(r.failure) != nil ==> gWrOpN == old(gWrOpN) && r.failure == old(r.failure)
+//@   ensures  [forward] old(r.failure) == nil ==> gWrOpN == old(gWrOpN) + 1 && gWrOpKind[gWrOpN - 1] == 1 && gWrOpRecv[gWrOpN - 1] == r.writer && gWrOpKey[gWrOpN - 1] == key && gWrOpVal[gWrOpN - 1] == value && r.failure == gWrOpErr[gWrOpN - 1]
+//@ func (*replayer).Delete
+//@   requires r != nil && r.writer != nil
+//@   modifies r.failure, gKeyValueWriterDeleteN, gKeyValueWriterDeleteRecv, gKeyValueWriterDeleteA0, gKeyValueWriterDeleteR0, gWrOpN, gWrOpKind[*], gWrOpRecv[*], gWrOpKey[*], gWrOpVal[*], gWrOpErr[*]
+//@   ensures  [stopped] old(r.failure) != nil ==> gWrOpN == old(gWrOpN) && r.failure == old(r.failure)
+//@   ensures  [forward] old(r.failure) == nil ==> gWrOpN == old(gWrOpN) + 1 && gWrOpKind[gWrOpN - 1] == 2 && gWrOpRecv[gWrOpN - 1] == r.writer && gWrOpKey[gWrOpN - 1] == key && r.failure == gWrOpErr[gWrOpN - 1]
+//@ func (*batch).ValueSize
+//@   requires b != nil
+//@   ensures  result == b.size
